@@ -17,10 +17,10 @@ CodecChecks(e) ==
     IF IsPanic(e.res) THEN {Bad(e, "C09", "panic-on-valid-value")} ELSE
     LET ref == Enc(e.fmt, e.v) IN
     (IF e.hex # ref THEN {Bad(e, "C09", "encoding-differs-from-reference-layout:" \o e.fmt)} ELSE {})
-    \cup (IF e.dec = "ERR" THEN {Bad(e, "C09", "valid-encoding-rejected:" \o e.fmt)}
+    \cup (IF ~e.dec_ok THEN {Bad(e, "C09", "valid-encoding-rejected:" \o e.fmt)}
           ELSE IF e.dec # e.v THEN {Bad(e, "C09", "decoded-value-differs:" \o e.fmt)} ELSE {})
     \cup (IF e.predicted # ByteLen(e.hex) THEN {Bad(e, "C09", "predicted-size-wrong:" \o e.fmt)} ELSE {})
-    \cup (IF "reenc" \in DOMAIN e.flags /\ ~e.flags.reenc /\ e.dec # "ERR"
+    \cup (IF "reenc" \in DOMAIN e.flags /\ ~e.flags.reenc /\ e.dec_ok
           THEN {Bad(e, "C09", "re-encoding-differs:" \o e.fmt)} ELSE {})
     \cup (IF "hash_same" \in DOMAIN e.flags /\ ~e.flags.hash_same THEN {Bad(e, "C09", "hash-changed-across-wire:" \o e.fmt)} ELSE {})
     \cup (IF "sig_same" \in DOMAIN e.flags /\ ~e.flags.sig_same THEN {Bad(e, "C09", "signature-verdict-changed-across-wire:" \o e.fmt)} ELSE {})
